@@ -63,6 +63,35 @@ structure Crypto where
   /-- `sign.RSAVerifyDigest(digest, alg, signature, publicKeyPEM) == nil` -/
   rsaVerify : (pem : Bytes) → Alg → (digest : Bytes) → (sig : Bytes) → Bool
 
+/-- The libraries between a configured key FILE and the RSA verification, uninterpreted:
+`encoding/pem`, `crypto/x509`, `crypto/rsa`, `crypto.Hash.Size`. A public key is an abstract byte string. -/
+structure KeyLib where
+  /-- `block, _ := pem.Decode(file)`: the bytes of the FIRST PEM block of the file, if there is one
+  (text before it is skipped; the block type and headers are not part of the answer) -/
+  pemDecodeFirst : Bytes → Option Bytes
+  /-- `x509.ParsePKIXPublicKey(der)`: `none` = error; `some none` = a key that is not RSA; `some (some k)` -/
+  parsePKIX : Bytes → Option (Option Bytes)
+  /-- `rsa.VerifyPKCS1v15(key, alg, digest, sig) == nil` -/
+  verifyPKCS1v15 : (key : Bytes) → Alg → (digest : Bytes) → (sig : Bytes) → Bool
+  /-- `digestType.Size()` -/
+  hashSize : Alg → Nat
+
+/-- `sign.RSAVerifyDigest(digest, alg, sig, keyFile) == nil` (pkg/apk/signature/rsa.go), check by check
+(tie: `tie_rsaVerifyDigest` over the regenerated statement list) -/
+def rsaVerifyDigest (L : KeyLib) (pem : Bytes) (alg : Alg) (digest sig : Bytes) : Bool :=
+  if digest.length != L.hashSize alg then false else      -- errDigestLength
+  match L.pemDecodeFirst pem with
+  | none => false                                           -- errNoPemBlock
+  | some der =>
+    match L.parsePKIX der with
+    | none => false                                         -- parse PKIX public key: …
+    | some none => false                                    -- errNoRSAKey
+    | some (some key) => L.verifyPKCS1v15 key alg digest sig
+
+/-- the cryptography of `parseRepositoryIndex` with `RSAVerifyDigest` spelled out over the libraries -/
+def Crypto.ofLib (sha1 sha256 : Bytes → Bytes) (L : KeyLib) : Crypto :=
+  { sha1 := sha1, sha256 := sha256, rsaVerify := rsaVerifyDigest L }
+
 /-- uninterpreted container decoding -/
 structure Codec where
   readFirst : Bytes → Option First
